@@ -27,8 +27,10 @@ import seqcheck
 
 SPEC = {
     "prop": "C19",
-    "lean_targets": ["InfernoVerif.Props.C19"],
-    "prop_files": ["InfernoVerif/Props/C19.lean"],
+    "lean_targets": ["InfernoVerif.Props.C19", "InfernoVerif.Props.C19Glue", "InfernoVerif.Gen.Dispatch"],
+    "translate": ["EncoderSites"],
+    "driver_targets": ["InfernoVerif.Model.Encoder", "InfernoVerif.Drv.Proto", "InfernoVerif.Gen.Dispatch"],
+    "prop_files": ["InfernoVerif/Props/C19.lean", "InfernoVerif/Props/C19Glue.lean"],
     "lemma_files": ["InfernoVerif/Lemmas/Encoder.lean"],
     "model_files": ["InfernoVerif/Model/Encoder.lean"],
     "driver": "drivers/C19.lean",
@@ -911,6 +913,8 @@ def run_encoder_cases(ctx, cases, ex: Exploration, max_findings=10):
 
 def explore(ctx) -> Exploration:
     ex = Exploration()
+    import transval
+    transval.validate(ctx, SPEC["translate"], ex, per_fn=40)   # generated encoder expressions vs the compiled source expressions
     rng = ctx.rng
     thorough = ctx.tier == "thorough" or ctx.intensify
     per = 200 if not thorough else 4000
